@@ -1204,6 +1204,15 @@ func (in *Interp) evalShortCircuit(st *State, e *ast.BinaryExpr) []valState {
 }
 
 func (in *Interp) binop(l Value, op token.Token, r Value) Value {
+	if op == token.EQL || op == token.NEQ {
+		isNil := func(v Value) bool { return v.K == vTag && v.Tag == "nil" }
+		switch {
+		case l.K == vFunc && isNil(r), r.K == vFunc && isNil(l):
+			return constV(constant.MakeBool(op == token.NEQ))
+		case isNil(l) && isNil(r):
+			return constV(constant.MakeBool(op == token.EQL))
+		}
+	}
 	if l.K == vConst && r.K == vConst {
 		switch op {
 		case token.EQL, token.NEQ, token.LSS, token.LEQ, token.GTR, token.GEQ:
@@ -1396,6 +1405,20 @@ func (in *Interp) inlineDecl(st *State, fd *ast.FuncDecl, call *ast.CallExpr, ar
 				}
 			}
 		}
+		nparams := 0
+		if fd.Type.Params != nil {
+			for _, f := range fd.Type.Params.List {
+				if len(f.Names) == 0 {
+					nparams++
+				}
+				nparams += len(f.Names)
+			}
+		}
+		if _, isSel := stripParens(call.Fun).(*ast.SelectorExpr); !isSel && len(args) == nparams+1 {
+			// a method expression called through a value: f(recv, args...)
+			v = args[0]
+			args = args[1:]
+		}
 		recv = &v
 	}
 	return in.inlineBody(st, fd.Type, fd.Body, fd.Recv, args, recvOpt{recv})
@@ -1532,6 +1555,15 @@ func (in *Interp) tableLookup(x ast.Expr, key Value) (Value, bool) {
 		// a miss yields the zero value
 		return in.zeroOf(in.c.typeOf(lit).Underlying().(*types.Map).Elem()), true
 	}
+	if arr, ok := in.c.typeOf(lit).Underlying().(*types.Array); ok && key.C.Kind() == constant.Int {
+		if k, ok := constant.Int64Val(key.C); ok && k >= 0 && k < arr.Len() {
+			z := in.zeroOf(arr.Elem())
+			if _, isFn := arr.Elem().Underlying().(*types.Signature); isFn {
+				z = tagV("nil", nil)
+			}
+			return z, true
+		}
+	}
 	return Value{}, false
 }
 
@@ -1548,6 +1580,11 @@ func (in *Interp) literalValue(e ast.Expr) Value {
 		if x.Name == "nil" {
 			return tagV("nil", nil)
 		}
+		if f, ok := in.c.objOf(x).(*types.Func); ok {
+			return Value{K: vFunc, FnObj: f}
+		}
+	case *ast.SelectorExpr:
+		// a method expression (*T).m or a qualified function
 		if f, ok := in.c.objOf(x).(*types.Func); ok {
 			return Value{K: vFunc, FnObj: f}
 		}
